@@ -361,6 +361,30 @@ def check(run, prog):
            f"({len(good)} digraph test(s) reached only after a failed trigraph test, {len(bad_)} misplaced"
            + (f"; peek() on {wrong[0]!r} returns {wrong[2]!r}, expected {wrong[1]!r}" if wrong else "") + ")",
            _node_ast(g_pk, (bad_ or good or [g_pk.entry])[0]) or pk.node)
+    # ... and the translation does not depend on what stands to the left of the spelling (no index / cache of
+    # "where a spelling may begin" that overlapping spellings defeat): every key after every short left context
+    # made of spelling characters, and after every other key
+    wrong_ctx = None
+    n_ctx = 0
+    try:
+        keys = dict(tables["trigraphs"])
+        keys.update(tables["digraphs"])
+        alphabet = sorted({ch for k in keys for ch in k})
+        contexts = [""] + alphabet + sorted({k[:2] for k in keys}) + sorted(keys) + ["???", "a?", "?a"]
+        for ctx in contexts:
+            for k, v in sorted(keys.items()):
+                n_ctx += 1
+                sim = LexerSim(prog, ctx + k + "x")
+                out = sim.call("peek", offset=len(ctx))
+                got = tuple(out.value) if out.kind == "ok" and isinstance(out.value, (tuple, list)) else out
+                if got != (v, len(k)) and wrong_ctx is None:
+                    wrong_ctx = (ctx, k, (v, len(k)), got)
+    except Unsupported as e:
+        raise AnalysisError(f"Lexer.peek is outside the evaluable subset: {e}")
+    run.ob("R-12.1", f"{pk.key}::context-independent", wrong_ctx is None,
+           (f"peek() at the spelling {wrong_ctx[1]!r} standing right after {wrong_ctx[0]!r} returns {wrong_ctx[3]!r}, expected "
+            f"{wrong_ctx[2]!r}: whether a spelling is translated depends on the characters before it") if wrong_ctx else "",
+           pk.node, contexts_x_keys=n_ctx)
     pop = prog.method("Lexer", "pop")
     run.require(pop is not None, "anchor vanished: Lexer.pop")
     _, pgood, pbad, _ = translation_chains(pop)
